@@ -2,6 +2,7 @@
 From Coq Require Import NArith Arith List Lia Bool.
 From BU Require Import Base.Exn Base.Bytes Model.MnemWords Model.ChunkMnemonic Model.ElectrumV1Mnemonic
   Lemmas.MnemWords Lemmas.ChunkMnemonic Lemmas.MoneroMnemonic.
+From BU Require Import Gen.MnemConsts.
 Import ListNotations.
 Open Scope N_scope.
 
